@@ -327,6 +327,10 @@ func cmdMeta(args []string) *Result {
 			var refs commonmark.ReferenceMap
 			if bytes.IndexByte(x, '\r') >= 0 {
 				blocks, refs, _ = streamParseEdgy(append([]byte(nil), x...))
+			} else if len(x)%3 == 1 {
+				// one line per Read; every block is kept until the last one has been returned (what a caller that collects the
+				// blocks before rewriting them does), so a Source that a later Read overwrote is seen
+				blocks, refs, _ = streamParseFrom(&lineReader{data: append([]byte(nil), x...)})
 			} else {
 				blocks, refs = commonmark.Parse(append([]byte(nil), x...))
 			}
@@ -380,7 +384,7 @@ func cmdMeta(args []string) *Result {
 			mustUnmarshal(sc.Bytes(), &r)
 			x := bytesOf(r.Input)
 			switch r.Rel {
-			case "quote", "list":
+			case "quote", "quotebare", "list":
 				doC09(x, r.Rel, r.Marker, r.N)
 			case "reparse":
 				doC16(x)
